@@ -34,7 +34,7 @@ def from_behaviour(beh, rng):
     ops, ts = [], 100
     for h in beh:
         if h["op"] == "add":
-            ops.append({"op": "add", "nid": h["nid"], "kind": h["kind"], "how": rng.choice(["add", "setitem"])})
+            ops.append({"op": "add", "nid": h["nid"], "kind": h["kind"], "how": rng.choice(["add", "setitem", "int"])})
         elif h["op"] == "addsdo":
             ops.append({"op": "addsdo", "nid": h["nid"], "tx": h["id"]})
         elif h["op"] == "remove":
@@ -76,7 +76,7 @@ def random_ops(rng, length):
         elif r < 0.44:
             nid, kind = rng.choice(node_ids), rng.choice(["remote", "local"])
             extra = [0x5C0 + nid] if kind == "remote" and rng.random() < 0.3 else []
-            ops.append({"op": "add", "nid": nid, "kind": kind, "how": rng.choice(["add", "setitem"]), "extra": extra})
+            ops.append({"op": "add", "nid": nid, "kind": kind, "how": rng.choice(["add", "setitem", "int"]), "extra": extra})
             nodes[nid] = kind
             xsdo[nid] = set(extra)
         elif r < 0.455:
